@@ -132,10 +132,11 @@ func init() {
 	register(&Property{
 		ID:          "C12",
 		Level:       "other",
-		Explanation: "Decides the assembly half of the claim flow structurally: C12-assemble — ClaimProofHandler looks up ONE L1 info leaf by the leaf_index parameter; the L1 branch (network 0 only) proves deposit_count against that leaf's MainnetExitRoot; the L2 branch (this node's network only) first obtains the local exit root as the leaf of the rollup exit tree at that leaf's RollupExitRoot and proves deposit_count against THAT root; the rollup proof is asked for (network, info.RollupExitRoot); the 200 response carries the proofs obtained and the same leaf; C12-error — an error of any of the five lookups ends the handler before the 200 response. Declined: the two binary searches getFirstL1InfoTreeIndexFor{L1,L2}Bridge — their correctness is monotonicity plus midpoint arithmetic over runtime data, which no structural rule in reach decides; that the proofs verify is C08's orientation argument only. Added after round 7: C12-frontier (shared with C01-step), lookups answer found only with the row they read (C12-tree).",
+		Explanation: "Decides the assembly half of the claim flow structurally: C12-assemble — ClaimProofHandler looks up ONE L1 info leaf by the leaf_index parameter; the L1 branch (network 0 only) proves deposit_count against that leaf's MainnetExitRoot; the L2 branch (this node's network only) first obtains the local exit root as the leaf of the rollup exit tree at that leaf's RollupExitRoot and proves deposit_count against THAT root; the rollup proof is asked for (network, info.RollupExitRoot); the 200 response carries the proofs obtained and the same leaf; C12-error — an error of any of the five lookups ends the handler before the 200 response. Declined: the two binary searches getFirstL1InfoTreeIndexFor{L1,L2}Bridge — their correctness is monotonicity plus midpoint arithmetic over runtime data, which no structural rule in reach decides; that the proofs verify is C08's orientation argument only. Added after round 7: C12-frontier (shared with C01-step), lookups answer found only with the row they read (C12-tree). Added after round 8: C12-rollup (shared with C11-rollup; every verify_batches insert is dominated by the store of the root UpsertLeaf returned), parseUintQuery parses base 10.",
 		Rules: []Rule{
-			{ID: "C12-cover", Floor: 3, Run: c12Cover, Text: "[DOM] safety of both index searches: every record that can become the answer was compared (root.Index >= depositCount) on the selecting path; root façade pass-through"},
+			{ID: "C12-cover", Floor: 4, Run: c12Cover, Text: "[DOM] safety of both index searches: every record that can become the answer was compared (root.Index >= depositCount) on the selecting path; root façade pass-through; query numbers parsed in base 10"},
 			{ID: "C12-frontier", Floor: 4, Run: func(c *core.Ctx) { treeAddLeaf(c, "C12-frontier"); treeInitCache(c, "C12-frontier") }, Text: "(shared with C01-step) the frontier the bridge syncer rebuilds after a restart is indexed by level exactly as the walk fills it: the exit roots it then computes are the contract's"},
+			{ID: "C12-rollup", Floor: 4, Run: shared("C12-rollup", c11Rollup), Text: "(shared with C11-rollup) every verify_batches row records the root returned by the update it belongs to (the L2 index search resolves rows by that root)"},
 			{ID: "C12-tree", Floor: 9, Run: func(c *core.Ctx) { storeRule(c, "C12-tree") }, Text: "(shared with C08-store) every path node stored; lookups by key; ErrNotFound only for no rows"},
 			{ID: "C12-assemble", Floor: 12, Run: c12Assemble, Text: "[PROV]+[DOM] proof assembly per network from one info leaf; response; error exits"},
 		},
@@ -184,8 +185,27 @@ func phiLeaves(v ssa.Value) []phiLeaf {
 // c12Cover: the safety half of the two L1-info-index searches. Whatever the search does, the record whose index it
 // answers with was compared against the bridge: its exit root's tree root has Index >= depositCount on every path
 // on which it becomes the answer. (Minimality of the answer is not part of the property and is not checked.)
+// c12Decimal: the query parameters (network id, leaf index, deposit count) are read as decimal numbers: with base 0 a
+// zero-padded `deposit_count=010` is octal 8, and the API answers for another deposit.
+func c12Decimal(c *core.Ctx, rule string) {
+	fn := c.MustFn(rule, "bridgeservice", "", "parseUintQuery")
+	if fn == nil {
+		return
+	}
+	n, ok := 0, true
+	core.Instrs(fn, func(i ssa.Instruction) {
+		if core.IsCallTo(i, "strconv.ParseUint") {
+			n++
+			base, isC := core.ConstInt(core.AsCall(i).Args[1])
+			ok = ok && isC && base == 10
+		}
+	})
+	c.Decide(n > 0 && ok, rule, "bridgeservice.parseUintQuery#decimal", fn.Pos(), "query numbers are parsed in base 10")
+}
+
 func c12Cover(c *core.Ctx) {
 	const rule = "C12-cover"
+	c12Decimal(c, rule)
 	for _, w := range []struct{ fn, rootField, via string }{
 		{"getFirstL1InfoTreeIndexForL1Bridge", "MainnetExitRoot", ""},
 		{"getFirstL1InfoTreeIndexForL2Bridge", "ExitRoot", "GetFirstL1InfoWithRollupExitRoot"},
